@@ -88,6 +88,10 @@ func (e *harnessErr) Error() string { return e.s }
 
 var errHarness error = &harnessErr{"injected"}
 
+type ioReader = io.Reader
+
+func newStringReader(s string) io.Reader { return strings.NewReader(s) }
+
 // memLoader: in-memory TemplateLoader that records what it is asked for.
 type memLoader struct {
 	files map[string]string
